@@ -49,6 +49,8 @@ type knownFinding struct {
 	ID       string `json:"id"`
 	Property string `json:"property"`
 	What     string `json:"what"`
+	// Also lists further properties whose checks share the harness that exhibits the finding
+	Also []string `json:"also_seen_under,omitempty"`
 }
 
 type replayFile struct {
@@ -304,6 +306,11 @@ func runCheck(args []string) int {
 	for _, k := range known.Findings {
 		if k.Property == *prop {
 			knownFor[k.ID] = k
+		}
+		for _, a := range k.Also {
+			if a == *prop {
+				knownFor[k.ID] = k
+			}
 		}
 	}
 
